@@ -388,6 +388,9 @@ func (p *Prog) storesIn(f *Func, out *[]Store) {
 		if st, ok := l.(*ast.StarExpr); ok {
 			l = unparen(st.X)
 		}
+		if _, isSel := l.(*ast.SelectorExpr); !isSel {
+			return // stores to locals are not field stores (a local may merely hold a field's value)
+		}
 		v := res.Val(l)
 		if v.Kind != "field" {
 			return
